@@ -42,6 +42,8 @@ pub enum KeyShape {
     GuidPathExisting,
     /// well-formed key document whose `guid` is not a name at all: "" (0), "." (1), ".." (2)
     GuidSpecial(u8),
+    /// a 768-bit key (192 hex digits): longer than one HMAC-SHA256 block, still a key
+    Hex768,
     /// well-formed key document whose key is valid hex of another size: 512 bits / 128 bits
     Hex512,
     Hex128,
@@ -261,6 +263,7 @@ impl HostState {
             KeyShape::OddLength => hmacsha::hex_lower(&h).to_uppercase()[1..].to_string(),
             KeyShape::Hex512 => format!("{}{}", hmacsha::hex_lower(&h).to_uppercase(), hmacsha::hex_lower(&hmacsha::sha256(&h)).to_uppercase()),
             KeyShape::Hex128 => hmacsha::hex_lower(&h).to_uppercase()[..32].to_string(),
+            KeyShape::Hex768 => hmacsha::hex_lower(&h).to_uppercase().repeat(3),
         };
         (guid, key)
     }
